@@ -3,7 +3,7 @@ CONSTANTS
   Constructs = {"pp", "pfe", "worker", "map", "gen"}
   Ns = {5, 6, 7, 8}
   Ks = {2, 3}
-  FKinds = {"err", "wrapped", "panicErr", "panicStr", "panicOther"}
+  FKinds = {"err", "wrapped", "panicErr", "panicStr", "panicOther", "panicW_SKIP", "panicW_EOF"}
   MaxFaults = 1
   MaxFaultPos = 3
   OptSet <- OptsAbort
